@@ -889,7 +889,7 @@ static int parse_multiply(
     return ARM_ILLEGAL_OPERANDS;
   }
 
-  add_bin32(asm_context, MUL_OPCODE | (cond<<28) | (s<<20) | (operands[0].value<<16) | (operands[1].value) | (operands[2].value<<8) | (rn<<12), IS_OPCODE);
+  add_bin32(asm_context, opcode | (cond<<28) | (s<<20) | (operands[0].value<<16) | (operands[1].value) | (operands[2].value<<8) | (rn<<12), IS_OPCODE);
 
   return 4;
 }
